@@ -177,3 +177,30 @@ Proof.
   split; [|split; vm_compute; reflexivity].
   repeat split. apply perm_swap.
 Qed.
+
+(* ------------------------------------------------------------------ strict_slashes / merge_slashes = None on a rule
+   Rule.bind: a rule that leaves strict_slashes / merge_slashes at None takes the setting of the map it is bound to;
+   matching such a rule is matching the rule with the map's setting written on it *)
+Definition explicit_flags (m : rmap) (r : rule) : rule :=
+  {| r_idx := r_idx r; r_endpoint := r_endpoint r; r_dom := r_dom r; r_segs := r_segs r; r_tail := r_tail r;
+     r_branch := r_branch r; r_methods := r_methods r; r_strict_opt := Some (rstrict m r); r_merge_opt := Some (rmerge m r);
+     r_websocket := r_websocket r; r_alias := r_alias r; r_defaults := r_defaults r |}.
+
+Theorem flags_inherited m r :
+  (r_strict_opt r = None -> rstrict m r = m_strict m)
+  /\ (r_merge_opt r = None -> rmerge m r = m_merge m)
+  /\ (forall b, r_strict_opt r = Some b -> rstrict m r = b)
+  /\ (forall b, r_merge_opt r = Some b -> rmerge m r = b)
+  /\ rstrict m (explicit_flags m r) = rstrict m r /\ rmerge m (explicit_flags m r) = rmerge m r
+  /\ forall P, admits m (explicit_flags m r) P = admits m r P.
+Proof.
+  unfold rstrict, rmerge. repeat split; try (intros; match goal with H : _ = _ |- _ => rewrite H end; reflexivity).
+Qed.
+
+(* Map(strict_slashes=False) makes Rule('/<int(max=5):a>/') answer '/3' directly; with strict_slashes=True on the rule it redirects *)
+Lemma ex_flags :
+  map_match no_hooks {| m_rules := [ex_r2]; m_strict := false; m_merge := true; m_redirect_defaults := true; m_host_matching := false |}
+    ex_adapter [47; 51] GET = Match ex_r2 [([97], VInt 3)]
+  /\ exists u, map_match no_hooks {| m_rules := [explicit_flags ex_map2 ex_r2]; m_strict := false; m_merge := true;
+                                      m_redirect_defaults := true; m_host_matching := false |} ex_adapter [47; 51] GET = RedirectTo u.
+Proof. split; [vm_compute; reflexivity|eexists; vm_compute; reflexivity]. Qed.
